@@ -279,25 +279,38 @@ def parseInterrogationMessage (c : Cur) : Res (List (Key × Val) × Cur) := do
 def pushUnwrap (cfg : Cfg) (cap : Nat) (l : List α) (x : α) : Res (List α) :=
   if cfg.isNoalloc && cap ≤ l.length then panic .capacity else ok (l ++ [x])
 
+/-- The `if remaining_bits(data) >= 8 { spare; second request }` block of `Station::parse`. -/
+def parseSecondRequest (cfg : Cfg) (messages : List (List (Key × Val))) (c : Cur) :
+    Res (List (List (Key × Val)) × Cur) :=
+  if c.remaining ≥ 8 then do
+    let (_, c) ← take 8 2 c
+    let (m2, c) ← parseInterrogationMessage c
+    -- `message.message_type != 0 || message.slot_offset.is_some()`
+    if m2 ≠ [(.messages_type, .nat 0), (.messages_slot_offset, .none)] then do
+      let ms ← pushUnwrap cfg 3 messages m2
+      ok (ms, c)
+    else ok (messages, c)
+  else ok (messages, c)
+
 /-- `interrogation.rs::Station::parse` -/
 def parseStation (cfg : Cfg) (c : Cur) : Res (List (Key × Val) × Cur) := do
   let (mmsi, c) ← take 32 30 c
   let (m1, c) ← parseInterrogationMessage c
   let messages ← pushUnwrap cfg 3 [] m1
-  let (messages, c) ← (if c.remaining ≥ 8 then do
-      let (_, c) ← take 8 2 c
-      let (m2, c) ← parseInterrogationMessage c
-      -- `message.message_type != 0 || message.slot_offset.is_some()`
-      if m2 ≠ [(.messages_type, .nat 0), (.messages_slot_offset, .none)] then do
-        let ms ← pushUnwrap cfg 3 messages m2
-        ok (ms, c)
-      else ok (messages, c)
-    else ok (messages, c))
+  let (messages, c) ← parseSecondRequest cfg messages c
   let flat := messages.zipIdx.flatMap fun (rec, i) => rec.map fun (k, v) => (Key.idx k i, v)
   ok ((.stations_mmsi, .nat mmsi) :: (.messages_count, .nat messages.length) :: flat, c)
 
-/-- `interrogation.rs` (type 15), with the inter-station spare consumed before the second
-    station (after the D6 fix). -/
+/-- The `if remaining >= 30 { spare; second station }` block of type 15 (spare first: D6 fix). -/
+def parseSecondStation (cfg : Cfg) (stations : List (List (Key × Val))) (c : Cur) :
+    Res (List (List (Key × Val))) :=
+  if c.remaining ≥ 30 then do
+    let (_, c) ← take 8 2 c
+    let (s2, _) ← parseStation cfg c
+    pushUnwrap cfg 2 stations s2
+  else ok stations
+
+/-- `interrogation.rs` (type 15) -/
 def parseT15 (cfg : Cfg) (bs : List UInt8) : Res Msg := do
   let c : Cur := ⟨bs, 0⟩
   let (message_type, c) ← take 8 6 c
@@ -306,11 +319,7 @@ def parseT15 (cfg : Cfg) (bs : List UInt8) : Res Msg := do
   let (_, c) ← take 8 2 c
   let (s1, c) ← parseStation cfg c
   let stations ← pushUnwrap cfg 2 [] s1
-  let stations ← (if c.remaining ≥ 30 then do
-      let (_, c) ← take 8 2 c
-      let (s2, _) ← parseStation cfg c
-      pushUnwrap cfg 2 stations s2
-    else ok stations)
+  let stations ← parseSecondStation cfg stations c
   ok ⟨.Interrogation,
     [(.message_type, .nat message_type), (.repeat_indicator, .nat repeat_indicator), (.mmsi, .nat mmsi),
      (.stations_count, .nat stations.length)] ++
